@@ -24,7 +24,7 @@ ASSUMPTIONS = [
 
 def profile(tier):
     return {
-        "fault_pct": 25, "min_ops": 5, "max_ops": 30 if tier == "quick" else 50,
+        "fault_pct": 25, "min_ops": 5, "max_ops": 30 if tier == "quick" else 50, "magfield": True,
         "min_channels": 2, "stop_at_measure_p": 3,
         "weights": {"declare": 6, "declare_more": 1, "add": 10, "align": 2,
                     "delay": 3, "phase_shift": 2, "target": 3, "eom": 5, "measure": 1},
